@@ -12,11 +12,11 @@ THEOREMS = ["Helios.Facts.lock_analysis_clean", "Helios.LB.recovers", "Helios.LB
             "Helios.LB.conserved_run", "Helios.LB.gauges_zero_when_idle",
             "Helios.Locks.lockorder_sound", "Helios.Facts.lock_order_ranked", "Helios.Facts.no_callback_under_lock",
             "Helios.Facts.timeouts_set"]
-FAULTS = ["refuse", "hang", "reset", "short", "garbage", "s500", "i503", "slow", "stall", "cau", "cad"]
+FAULTS = ["refuse", "hang", "reset", "short", "garbage", "s500", "i503", "slow", "stall", "cau", "cad", "upg"]
 # client-visible outcome classes a fault may legitimately produce (regex), besides the answers
 # of Helios' own gates (429 limiter / breaker budget, 503 breaker open / no healthy backend)
 ALLOWED = {
-    "ok": r"200", "refuse": r"502", "hang": r"502", "garbage": r"502", "s500": r"500", "i503": r"503",
+    "ok": r"200", "refuse": r"502", "hang": r"502", "garbage": r"502", "s500": r"500", "i503": r"503", "upg": r"200",
     "reset": r"200-then-broken\(\d+\)", "short": r"200-then-broken\(\d+\)", "stall": r"200-then-broken\(\d+\)",
     "slow": r"200", "cau": r"client-aborted-upload", "cad": r"client-aborted-download|200",
 }
@@ -42,6 +42,10 @@ def targeted(strategy):
     eps.append(["ft new %s 0 0 2 0" % strategy, "ft req s500", "ft req s500", "ft req s500", "ft req ok", "ft probe"])
     eps.append(["ft new %s 1 0 2 0" % strategy, "ft req s500", "ft req s500", "ft req s500", "ft wait 1150", "ft req short",
                 "ft wait 1150", "ft req s500", "ft probe"])
+    # the breaker with max_requests left at its documented default: after a storm and the timeout,
+    # clean requests one after the other close it again — none of them is refused
+    eps.append(["ft new %s 2 0 0 0" % strategy, "ft req s500", "ft req s500", "ft req s500", "ft wait 1150", "# all-clean",
+                "ft req ok", "ft req ok", "ft req ok", "ft req ok", "ft probe"])
     # slow-but-healthy active probes in flight while passive ejections happen (a probe answer
     # arriving inside the unhealthy window must leave the balancer usable)
     eps.append(["ft new %s 0 0 1 0" % strategy, "ft health 700", "ft wait 1200", "ft req s500", "ft req s500", "ft req s500",
@@ -69,7 +73,14 @@ def oracle(ep, outs):
     fails = []
     lines = C.op_lines(ep)
     goroutines = []
-    for line, o in zip(lines, outs):
+    clean_from = None
+    k = 0
+    for raw in ep:
+        if raw.startswith("# all-clean"):
+            clean_from = k
+        elif raw and not raw.startswith("#"):
+            k += 1
+    for idx, (line, o) in enumerate(zip(lines, outs)):
         w = line.split()
         if w[1] in ("wait", "health"):
             continue
@@ -86,6 +97,8 @@ def oracle(ep, outs):
                 fails.append("unexpected client outcome %s for fault %s" % (cls, w[2]))
             if w[2] == "ok" and cls not in ("200", "429", "503"):
                 fails.append("clean request answered %s" % cls)
+            if w[2] == "ok" and clean_from is not None and idx >= clean_from and cls != "200":
+                fails.append("after the faults stopped and the breaker timeout elapsed, sequential clean requests must close the breaker; request #%d got %s" % (idx - clean_from + 1, cls))
         elif w[1] == "conc":
             canon, _, detail = o.partition(" || ")
             n = int(w[2]) * len(w[3].split(","))
